@@ -495,4 +495,107 @@ theorem body_wf (P : List Obj) (π : List Nat → List Nat) (hπ : ∀ l, (π l)
   unfold bodyA
   simp only [hbad, f1, f1', f2, f4, Bool.or_self, Bool.false_eq_true, if_false]
 
+/-! ## The same with the exact side condition: unlisted Vars may carry (preset) names, as long as
+    none of them is a key of `inputs` or the name of an output -/
+
+/-- No unlisted Var carries a name that is a key of `inputs` or a requested output name. -/
+def NoClash (req : Request) (s : Store) : Prop :=
+  ∀ v, v ∉ req.inputs.map (·.obj) → ∀ n, s v = some n →
+    n ∉ req.inputs.map (·.name) ∧ ∀ e ∈ req.outputs, e.name ≠ n
+
+theorem noClash_of_unnamed (req : Request) (s : Store)
+    (hunnamed : ∀ v, v ∉ req.inputs.map (·.obj) → s v = none) : NoClash req s := by
+  intro v hv n hn
+  rw [hunnamed v hv] at hn
+  cases hn
+
+theorem foreign_unlisted' (req : Request) (s : Store) (hnc : NoClash req s) (a : Nat)
+    (hl : a ∉ req.inputs.map (·.obj)) :
+    foreign (req.inputs.map (·.name)) (Renames.enter (kwargs req) s a) = true := by
+  have h1 : Renames.enter (kwargs req) s a = s a :=
+    Renames.enter_unlisted _ _ _ (by rw [kwargs_vars]; exact hl)
+  rw [h1]
+  cases hs : s a with
+  | none => rfl
+  | some n =>
+    have := (hnc a hl n hs).1
+    simp only [foreign, Bool.not_eq_true']
+    cases hc : (req.inputs.map (·.name)).contains n with
+    | false => rfl
+    | true => exact absurd (List.contains_iff_mem.mp hc) this
+
+theorem listed_of_not_foreign' (req : Request) (s : Store) (hnc : NoClash req s) (a : Nat)
+    (h : foreign (req.inputs.map (·.name)) (Renames.enter (kwargs req) s a) = false) :
+    a ∈ req.inputs.map (·.obj) := by
+  apply Classical.byContradiction
+  intro hn
+  rw [foreign_unlisted' req s hnc a hn] at h
+  cases h
+
+/-- `body_wf` under `NoClash` instead of "unlisted Vars are unnamed". -/
+theorem body_wf' (P : List Obj) (π : List Nat → List Nat) (hπ : ∀ l, (π l).Perm l) (fixed : Bool)
+    (req : Request) (s : Store)
+    (hobjs : (req.inputs.map (·.obj)).Nodup)
+    (hdisj : ∀ e ∈ req.outputs, e.name ∉ req.inputs.map (·.name))
+    (hbad : (mainInfo P req.outputs).bad = false)
+    (hleak : ∀ a ∈ (mainInfo P req.outputs).claimed, a ∉ (mainInfo P req.outputs).used)
+    (hformals : ∀ e ∈ req.inputs, e.obj ∉ (mainInfo P req.outputs).claimed)
+    (hnc : NoClash req s) :
+    body P π fixed req (Renames.enter (kwargs req) s) =
+      if (freeArgs P req.outputs).any (fun a => !(argsOf P π req).contains a) then .error .key
+      else if (argsOf P π req).any
+          (fun a => foreign (req.inputs.map (·.name)) (Renames.enter (kwargs req) s a)) then .error .key
+      else
+        .ok { inputs := if req.drop && fixed
+                then req.inputs.filterMap (fun e =>
+                  ((argsOf P π req).map (vinfo P (Renames.enter (kwargs req) s))).find?
+                    (fun i => i.name == e.name))
+                else (argsOf P π req).map (vinfo P (Renames.enter (kwargs req) s))
+              outputs := req.outputs.map (fun e => ⟨e.name, tyOf P e.obj⟩)
+              outVars := req.outputs.map (·.obj) } := by
+  rw [body_eq]
+  have f1 : (argsOf P π req).any (fun a => (mainInfo P req.outputs).claimed.contains a) = false := by
+    rw [List.any_eq_false]
+    intro a ha
+    unfold argsOf at ha
+    cases hd : req.drop with
+    | true =>
+      rw [hd, if_pos rfl] at ha
+      rw [free_not_claimed P req.outputs a ((hπ _).mem_iff.mp ha)]
+      simp
+    | false =>
+      rw [hd] at ha
+      simp only [Bool.false_eq_true, if_false] at ha
+      obtain ⟨e, he, rfl⟩ := List.mem_map.mp ha
+      intro hc
+      exact hformals e he (List.contains_iff_mem.mp hc)
+  have f1' : (mainInfo P req.outputs).claimed.any
+      (fun a => (mainInfo P req.outputs).used.contains a) = false := by
+    rw [List.any_eq_false]
+    intro a ha hc
+    exact hleak a ha (List.contains_iff_mem.mp hc)
+  have f2 : hasDup (argsOf P π req) = false := by
+    rw [hasDup_false_iff]
+    unfold argsOf
+    cases hd : req.drop with
+    | true => rw [if_pos rfl]; exact (hπ _).nodup_iff.mpr (freeArgs_nodup P req.outputs)
+    | false => simp only [Bool.false_eq_true, if_false]; exact hobjs
+  have f4 : req.outputs.any (fun e => (argsOf P π req).any
+      (fun a => Renames.enter (kwargs req) s a == some e.name)) = false := by
+    rw [List.any_eq_false]
+    intro e he hc
+    obtain ⟨a, _, hn⟩ := List.any_eq_true.mp hc
+    have hn' : Renames.enter (kwargs req) s a = some e.name := by simpa using hn
+    by_cases hl : a ∈ req.inputs.map (·.obj)
+    · obtain ⟨e', he', _, hn2⟩ := enter_listed_entry req s a hl
+      rw [hn2] at hn'
+      have hname : e'.name = e.name := Option.some.inj hn'
+      exact hdisj e he (List.mem_map.mpr ⟨e', he', hname⟩)
+    · have h1 : Renames.enter (kwargs req) s a = s a :=
+        Renames.enter_unlisted _ _ _ (by rw [kwargs_vars]; exact hl)
+      rw [h1] at hn'
+      exact (hnc a hl e.name hn').2 e he rfl
+  unfold bodyA
+  simp only [hbad, f1, f1', f2, f4, Bool.or_self, Bool.false_eq_true, if_false]
+
 end Front
